@@ -110,7 +110,25 @@ def from_py(x):
         return ['str', 0, 1, x]
     if isinstance(x, datetime.date):
         return ['date', x.toordinal(), 1, '']
+    if type(x).__name__ == 'Inventory':
+        # the inventory realisation of an int (see int_as_inventory): empty = 0, one costless USD position = its number
+        pos = list(x)
+        if not pos:
+            return ['int', 0, 1, '']
+        if len(pos) == 1 and pos[0].cost is None and pos[0].units.currency == 'USD' and pos[0].units.number == int(pos[0].units.number):
+            return from_py(int(pos[0].units.number))
     return ['other:' + type(x).__name__, 0, 1, '']
+
+
+def int_as_inventory(n):
+    """an int realised as a beancount Inventory of n USD (NULL stays NULL): sum / first / last / count over such a column are
+    the int aggregates under the projection above, while the cells are mutable objects that outlive the statement"""
+    if n is None:
+        return None
+    from beancount.core import inventory, amount
+    inv = inventory.Inventory()
+    inv.add_amount(amount.Amount(D(n), 'USD'))
+    return inv
 
 
 def _terminating(d):
